@@ -68,6 +68,25 @@ let string_of_gres = function
 let vclass s = match find_vclass (coq_string s) with Some c -> c | None -> failwith ("unknown vclass " ^ s)
 let rclass s = match find_rclass (coq_string s) with Some c -> c | None -> failwith ("unknown rclass " ^ s)
 
+(* text layer: strings travel hex-encoded; str = ascii list *)
+let unhex (h : Stdlib.String.t) : ascii list =
+  if h = "-" then [] else
+  let n = Stdlib.String.length h / 2 in
+  List.init n (fun i -> ascii_of_char (Char.chr (int_of_string ("0x" ^ Stdlib.String.sub h (2 * i) 2))))
+let hex (l : ascii list) : Stdlib.String.t =
+  if l = [] then "-" else Stdlib.String.concat "" (List.map (fun a -> Printf.sprintf "%02x" (Char.code (char_of_ascii a))) l)
+let string_of_gconstr = function Star -> "*" | C (o, v) -> string_of_cop o ^ ":" ^ hex v
+let string_of_gclist l = if l = [] then "-" else Stdlib.String.concat "," (List.map string_of_gconstr l)
+let gconstr_of_string s =
+  if s = "*" then Star
+  else match Stdlib.String.split_on_char ':' s with
+    | [o; h] -> C (cop_of_string o, unhex h)
+    | _ -> failwith ("bad gconstraint " ^ s)
+let gclist s = List.map gconstr_of_string (split_list s)
+let res_gclist = function Ok l -> "OK " ^ string_of_gclist l | Err e -> "ERR " ^ string_of_err e
+let string_of_cop7 = function Op o -> string_of_cop o | STAR -> "STAR"
+let b s = (s = "1" || s = "true")
+
 let handle line =
   match Stdlib.String.split_on_char ' ' (Stdlib.String.trim line) with
   | ["contains"; cs; v] -> res_bool (z_contains (clist cs) (z_of_int (int_of_string v)))
@@ -89,6 +108,20 @@ let handle line =
   | ["frozen"; a] -> string_of_bool (x_frozen (vclass a))
   | ["vclasses"] -> Stdlib.String.concat "," (List.map (fun c -> ocaml_string (x_vclass_name c)) x_all_vclasses)
   | ["rclasses"] -> Stdlib.String.concat "," (List.map (fun c -> ocaml_string (x_rclass_name c)) x_all_rclasses)
+  | ["split_constraint"; h] -> let (c, v) = x_split_constraint (unhex h) in string_of_cop7 c ^ " " ^ hex v
+  | ["gconstraint"; h] -> (match g_constraint_from_string (unhex h) with Ok c -> "OK " ^ string_of_gconstr c | Err e -> "ERR " ^ string_of_err e)
+  | ["gparse"; h; fs; fv] -> res_gclist (g_constraints_from_string (unhex h) (b fs) (b fv))
+  | ["gprint"; cs] -> (match g_constraints_to_string (gclist cs) with Ok t -> "OK " ^ hex t | Err e -> "ERR " ^ string_of_err e)
+  | ["fromstring"; h; fs; fv] -> (match g_from_string (unhex h) (b fs) (b fv) with
+                                   | Ok (rc, cs) -> "OK " ^ ocaml_string (x_rclass_name rc) ^ " " ^ string_of_gclist cs
+                                   | Err e -> "ERR " ^ string_of_err e)
+  | ["py_is_ascii"; h] -> string_of_bool (x_py_is_ascii (unhex h))
+  | ["remove_spaces"; h] -> hex (x_remove_spaces (unhex h))
+  | ["lower"; h] -> hex (x_lower (unhex h))
+  | ["split"; c; h] -> Stdlib.String.concat "," (List.map hex (x_split_c (List.hd (unhex c)) (unhex h)))
+  | ["strip"; cs; h] -> hex (x_strip_set (unhex cs) (unhex h))
+  | ["lstrip"; cs; h] -> hex (x_lstrip_set (unhex cs) (unhex h))
+  | ["partition"; c; h] -> let ((a, f), r) = x_partition_c (List.hd (unhex c)) (unhex h) in hex a ^ " " ^ string_of_bool f ^ " " ^ hex r
   | _ -> "BAD " ^ line
 
 let () =
